@@ -120,3 +120,40 @@ func Pointcut(id string) {
 
 // PointHook is installed by crash/gating harnesses.
 var PointHook func(id string)
+
+// TimerState is the scheduler-side model of one controlled timer (see package vtimer).
+type TimerState struct {
+	armed, stopped bool
+}
+
+func NewTimerState() *TimerState { return &TimerState{} }
+
+func (t *TimerState) touch(extra uint64) {
+	s := cur()
+	if s == nil || s.inert() {
+		return
+	}
+	s.point(&op{kind: opTimer, enabled: alwaysEnabled})
+	s.event(s.cur, opTimer, s.obj(unsafe.Pointer(t)), false, extra)
+}
+
+// Arm / Disarm / Stop are visible operations on the timer object.
+func (t *TimerState) Arm()    { t.touch(1); t.armed = true }
+func (t *TimerState) Disarm() { t.touch(2); t.armed = false }
+func (t *TimerState) Stop()   { t.touch(3); t.stopped = true }
+
+// WaitFire blocks the dispatch thread until the timer is armed and the scheduler lets it
+// fire (returns true, timer disarmed) or the timer was stopped (returns false).
+func (t *TimerState) WaitFire() bool {
+	s := cur()
+	if s == nil || s.inert() {
+		return false
+	}
+	s.point(&op{kind: opTimer, enabled: func() bool { return t.armed || t.stopped }})
+	s.event(s.cur, opTimer, s.obj(unsafe.Pointer(t)), false, 4)
+	if t.stopped {
+		return false
+	}
+	t.armed = false
+	return true
+}
